@@ -9,6 +9,7 @@ mod round3;
 mod round4;
 mod round5;
 mod round6;
+mod round7;
 mod alloc;
 mod cases;
 mod exec;
@@ -129,7 +130,10 @@ pub fn oracles_for(prop: &str, c: &Case, impl_result: &str) -> Vec<Verdict> {
         ("C16", Case::Ring(d, r, ps)) => v.push(oracle_c16(&Ctor::PolygonRings(*d, vec![(*r, ps.clone())]))),
         ("C18", Case::Size(c)) => v.push(oracle_c18(c)),
         ("C18", Case::Write { ctors, .. }) => v.push(round3::oracle_record_lengths(ctors)),
-        ("C18", Case::Read { shp, .. }) => v.push(round6::oracle_size_of_read_shapes(shp)),
+        ("C18", Case::Read { shp, .. }) => {
+            v.push(round6::oracle_size_of_read_shapes(shp));
+            v.push(round7::oracle_rewrite_read_shapes(shp));
+        }
         ("C19", Case::Read { target, shp, .. }) if (target == "generic" || target == "Point") && shp.len() >= 140 => {
             // the second record's type field holds an invalid code: that code is reported
             let code = i32::from_le_bytes([shp[136], shp[137], shp[138], shp[139]]);
@@ -148,6 +152,22 @@ pub fn oracles_for(prop: &str, c: &Case, impl_result: &str) -> Vec<Verdict> {
         _ => {}
     }
     v
+}
+
+/// the ESRI type code of a (family, dimension) pair
+fn ctors_code(fam: &str, d: Dim) -> i32 {
+    let base = match fam {
+        "point" => 1,
+        "polyline" => 3,
+        "polygon" => 5,
+        "multipoint" => 8,
+        _ => return 31,
+    };
+    base + match d {
+        Dim::Xy => 0,
+        Dim::Xym => 20,
+        Dim::Xyzm => 10,
+    }
 }
 
 fn run_and_judge(out: &mut Out, c: &Case) {
@@ -315,6 +335,10 @@ fn cases_for(prop: &str, tier: &str, seed: u64, out: &mut Out) {
                 out.verdict(&id, "scenario big-index-routes 1500", round5::oracle_big_index_routes(1500));
                 let id = out.oracle_only_id();
                 out.verdict(&id, "scenario path-uppercase", round6::oracle_path_uppercase());
+                for (which, room, offered) in [("shx", 3usize, 5usize), ("shp", 2, 4), ("shx", 1, 2), ("shp", 4, 4)] {
+                    let id = out.oracle_only_id();
+                    out.verdict(&id, &format!("scenario failed-write-then-finalize {} {} {}", which, room, offered), round7::oracle_failed_write_then_finalize(which, room, offered));
+                }
                 for (n_old, n_new) in [(6usize, 2usize), (3, 3), (2, 5), (9, 1)] {
                     let id = out.oracle_only_id();
                     out.verdict(&id, &format!("scenario reused-destinations {} {}", n_old, n_new), round4::oracle_reused_destinations(n_old, n_new));
@@ -357,7 +381,26 @@ fn cases_for(prop: &str, tier: &str, seed: u64, out: &mut Out) {
                     run_and_judge(out, &Case::Write { shx: true, ctors: vec![c] });
                 }
             }
+            if prop == "C05" {
+                // the header box after a write that FAILED, and after a finalize that failed and was retried
+                for (which, room, offered) in [("shp", 2usize, 4usize), ("shx", 3, 5), ("shp", 1, 3)] {
+                    let id = out.oracle_only_id();
+                    out.verdict(&id, &format!("scenario failed-write-then-finalize {} {} {}", which, room, offered), round7::oracle_failed_write_then_finalize(which, room, offered));
+                }
+                let a = Ctor::Polyline(Dim::Xym, vec![P { x: 9.0f64.to_bits(), y: 48.5f64.to_bits(), z: 0, m: 90.0f64.to_bits() }, P { x: 15.0f64.to_bits(), y: 54.0f64.to_bits(), z: 0, m: 230.0f64.to_bits() }]);
+                let ops = vec![WOp::Write(a.clone()), WOp::Write(a), WOp::Finalize];
+                for n in (0..360usize).step_by(4) {
+                    for dest in ["shp", "shx"] {
+                        let c = Case::Wfault { shx: true, dest: dest.to_string(), fault: Fault::WriteAfter(n), persistent: false, ops: ops.clone() };
+                        let id = out.oracle_only_id();
+                        let v = extra::oracle_c12(true, dest, Fault::WriteAfter(n), false, &ops);
+                        out.verdict(&id, &show_case(&c), v);
+                    }
+                }
+            }
             if prop == "C13" {
+                let id = out.oracle_only_id();
+                out.verdict(&id, "scenario reverse-truncated", round7::oracle_reverse_truncated());
                 let id = out.oracle_only_id();
                 out.verdict(&id, "scenario gap-faults", round5::oracle_gap_faults());
                 let id = out.oracle_only_id();
@@ -449,6 +492,24 @@ fn cases_for(prop: &str, tier: &str, seed: u64, out: &mut Out) {
                 let f = round5::strip_record_tail(&shp, 8);
                 for req in TYPE_NAMES {
                     run_and_judge(out, &Case::Read { target: req.to_string(), shp: f.clone(), shx: None });
+                }
+            }
+            // records that hold no vertex at all: typed and generic reads agree on what they are
+            for code in [8i32, 18, 28, 3, 5, 13, 15, 23, 25, 31] {
+                for nparts in [0usize, 2] {
+                    if [8, 18, 28].contains(&code) && nparts > 0 {
+                        continue;
+                    }
+                    let f = round5::empty_shape_file(code, nparts, 0.0, true);
+                    stats.hit("typed.empty-shape");
+                    for req in TYPE_NAMES {
+                        run_and_judge(out, &Case::Read { target: req.to_string(), shp: f.clone(), shx: None });
+                    }
+                    run_and_judge(out, &Case::Read { target: "generic".into(), shp: f.clone(), shx: None });
+                    // with the index as well (typed iteration that goes on after a refused record)
+                    let x = round7::index_of(&f);
+                    run_and_judge(out, &Case::Read { target: "Point".into(), shp: f.clone(), shx: Some(x.clone()) });
+                    run_and_judge(out, &Case::Read { target: "generic".into(), shp: f, shx: Some(x) });
                 }
             }
             // polylines all of whose parts are closed (they look like rings): still polylines
@@ -562,6 +623,13 @@ fn cases_for(prop: &str, tier: &str, seed: u64, out: &mut Out) {
                     run_and_judge(out, &Case::Rhist { target: "generic".into(), shp: f, shx: Some(shx.clone()), ops: vec![ROp::It(2), ROp::Hint, ROp::It(99), ROp::Hint] });
                 }
             }
+            // a negative NumPoints with a NumParts that makes the declared length agree with the formula
+            for code in [3i32, 5, 13, 15, 23, 25, 31] {
+                for npoints in [-1i32, -2, -5, i32::MIN / 64] {
+                    stats.hit("mut.negative-points-consistent");
+                    run_and_judge(out, &Case::Read { target: "generic".into(), shp: round7::negative_points_file(code, npoints), shx: None });
+                }
+            }
             // records that hold no vertex at all, with a stored box of any value
             for code in [8i32, 18, 28, 3, 5, 13, 15, 23, 25, 31] {
                 for nparts in [0usize, 1, 2] {
@@ -581,6 +649,12 @@ fn cases_for(prop: &str, tier: &str, seed: u64, out: &mut Out) {
                     let id = out.oracle_only_id();
                     out.verdict(&id, &format!("scenario collect-peak {}", words), round4::oracle_collect_peak(words));
                 }
+                {
+                    let id = out.oracle_only_id();
+                    out.verdict(&id, "scenario sparse-record-numbers", round7::oracle_sparse_record_numbers());
+                    let id = out.oracle_only_id();
+                    out.verdict(&id, "scenario after-large-dataset", round7::oracle_after_large_dataset());
+                }
                 for announced in [1_000_000u32, u32::MAX / 64] {
                     let id = out.oracle_only_id();
                     out.verdict(&id, &format!("scenario dbf-count-peak {}", announced), extra::oracle_scenario("C17", &["dbf-count-peak".to_string(), announced.to_string()]).unwrap());
@@ -590,6 +664,10 @@ fn cases_for(prop: &str, tier: &str, seed: u64, out: &mut Out) {
         "C09" | "C10" => {
             extra::cases_whist(prop, tier, &mut rng, &mut stats, out);
             if prop == "C09" {
+                for n in [0usize, 2, 5] {
+                    let id = out.oracle_only_id();
+                    out.verdict(&id, &format!("scenario panic-drop {}", n), round4::oracle_panic_drop(n));
+                }
                 extra::cases_fault("quick", &mut rng, &mut stats, out);
                 for (n_old, n_new) in [(40usize, 3usize), (7, 7), (12, 1)] {
                     let id = out.oracle_only_id();
@@ -609,7 +687,15 @@ fn cases_for(prop: &str, tier: &str, seed: u64, out: &mut Out) {
             }
         }
         "C11" => extra::cases_crash(tier, &mut rng, &mut stats, out),
-        "C12" => extra::cases_fault(tier, &mut rng, &mut stats, out),
+        "C12" => {
+            extra::cases_fault(tier, &mut rng, &mut stats, out);
+            let id = out.oracle_only_id();
+            out.verdict(&id, "scenario bulk-write-faults", round7::oracle_bulk_write_faults());
+            for (which, room, offered) in [("shx", 3usize, 5usize), ("shp", 2, 4)] {
+                let id = out.oracle_only_id();
+                out.verdict(&id, &format!("scenario failed-write-then-finalize {} {} {}", which, room, offered), round7::oracle_failed_write_then_finalize(which, room, offered));
+            }
+        }
         "C15" => {
             extra::cases_rhist(tier, &mut rng, &mut stats, out);
             extra::cases_pairs_c15(tier, &mut stats, out);
@@ -762,7 +848,21 @@ fn cases_for(prop: &str, tier: &str, seed: u64, out: &mut Out) {
                 if *d != Dim::Xy {
                     files.push(round5::strip_record_tail(&shp, 16 + 8 * npts));
                 }
+                if *fam != "multipoint" || true {
+                    for nparts in [0usize, 1] {
+                        let code = ctors_code(fam, *d);
+                        if *fam == "multipoint" && nparts > 0 {
+                            continue;
+                        }
+                        files.push(round5::empty_shape_file(code, nparts, 0.0, true));
+                    }
+                }
                 for f in files {
+                    {
+                        let id = out.oracle_only_id();
+                        let line = show_case(&Case::Read { target: "generic".into(), shp: f.clone(), shx: None });
+                        out.verdict(&id, &line, round7::oracle_rewrite_read_shapes(&f));
+                    }
                     stats.hit("size.read-shape");
                     let id = out.oracle_only_id();
                     let line = show_case(&Case::Read { target: "generic".into(), shp: f.clone(), shx: None });
